@@ -8,6 +8,15 @@ One *history* (<= 30 statements) is kept as a small AST and rendered three ways 
   * a tiny identity-semantics interpreter in Python (objects are Python objects, `is`), used to keep
     the generated programs well typed and as a second opinion on the Lean Spec.
 
+Rejected operations (round 4): a statement `("try", kind, target, index, [value])` renders
+`try { T.insert(I, V); print("accepted"); } catch e: Error { print("rejected"); }` (kind insert / remove /
+set / get) with an index of every class the natives tell apart — in range, one past the end, far out,
+negative (normalised by `[]`, refused by insert/remove), fractional, not a number — preferably on a list
+whose length equals its capacity (the generator tracks capacities for that purpose only), and is followed by
+a battery of identity and content observations through the aliases of the target.  The Spec: a rejected
+operation prints `rejected` and changes nothing; the Model: the failing branches of the natives
+(Model/ListFwd.lean `M.raise`), proved to leave the heap untouched (Props/C10.lean `C10_rejected_*`).
+
 Judgement per observation:  model == spec  => implementation must equal both (else VIOLATION, a new
 identity bug inside the envelope);  model != spec => implementation must equal the model (tie) and
 the deviation is counted as an instance of known finding D7;  implementation != model anywhere =>
@@ -65,6 +74,13 @@ class PList:
 
     def __init__(self, items):
         self.items = list(items)
+        # capacity as list.rs computes it (`list!`: max(len, 4); growth (cap * 2).max(needed)).  Only the GENERATOR reads it, to aim
+        # rejected operations at lists with no spare room; no judgement depends on it.
+        self.cap = max(len(self.items), 4)
+
+    def added(self):
+        if len(self.items) > self.cap:
+            self.cap = max(self.cap * 2, len(self.items))
 
 
 class PTuple:
@@ -120,6 +136,24 @@ def show(v):
     return "obj"
 
 
+def ix_render(ix):
+    """index operand of a `try` statement -> (source, micro-op, numeric value or None)"""
+    t = ix[0]
+    if t == "num":
+        return str(ix[1]), "const %d" % ix[1], ix[1]
+    if t == "neg" and ix[1] >= 1:
+        return "-%d" % ix[1], "cneg %d" % (ix[1] - 1), -ix[1]
+    if t == "frac":
+        return "%d.5" % ix[1], "cfrac %d" % ix[1], ix[1] + 0.5
+    if t == "nil":
+        return "nil", "nil", None
+    raise Invalid("index operand")
+
+
+SAY_ACC = ["fn", "fn", "say 1", "drop"]                       # print("accepted");
+CATCH_OPS = ["catchb", "fn", "fn", "say 0", "drop", "endc"]   # catch e: Error { print("rejected"); }
+
+
 class Spec:
     """State of one history under identity semantics + rendering of each statement."""
 
@@ -134,6 +168,7 @@ class Spec:
         self.src = []
         self.ops = list(PROLOGUE_OPS)
         self.nobs = 0
+        self.trylog = []    # per `try` statement: (kind, index class, accepted, target was full)
 
     # -- expressions: returns (value, source, ops) -------------------------------------------
     def ev(self, e):
@@ -257,18 +292,23 @@ class Spec:
                 raise Invalid("lvalue")
         elif t == "push":
             tv, ts, to = self.ev(st[1])
-            if kind(tv) != "list" or not 1 <= len(st[2]) <= 2:
+            if kind(tv) != "list" or not 0 <= len(st[2]) <= 2:
                 raise Invalid("push")
             parts = [self.ev(x) for x in st[2]]
-            tv.items += [p[0] for p in parts]
+            for p in parts:
+                tv.items.append(p[0])
+                tv.added()
+            # more than two arguments would leave operands in dead stack slots beyond the reach of `scrub`, where the stack array's own
+            # reallocation decides whether a later scan_roots still sees them (not modelled); `x.push()` compiles to Invoke (no bound method)
             self.emit("%s.push(%s);" % (ts, ", ".join(p[1] for p in parts)),
-                      to + ["bind"] + [op for p in parts for op in p[2]] + ["call lpush %d" % len(parts), "drop"])
+                      to + (["bind"] if parts else []) + [op for p in parts for op in p[2]] + ["call lpush %d" % len(parts), "drop"])
         elif t == "insert":
             tv, ts, to = self.ev(st[1])
             v, s, o = self.ev(st[3])
             if kind(tv) != "list" or not 0 <= st[2] <= len(tv.items):
                 raise Invalid("insert")
             tv.items.insert(st[2], v)
+            tv.added()
             self.emit("%s.insert(%d, %s);" % (ts, st[2], s), to + ["bind", "const %d" % st[2]] + o + ["call linsert 2", "drop"])
         elif t == "pop":
             tv, ts, to = self.ev(st[1])
@@ -351,6 +391,61 @@ class Spec:
             if kind(tv) != "list" or not 0 <= st[2] < len(tv.items) or kind(tv.items[st[2]]) not in ("num", "nil"):
                 raise Invalid("show")
             self.observe(tv.items[st[2]], "%s[%d]" % (ts, st[2]), to + ["const %d" % st[2], "call lget 1"])
+        elif t == "try":
+            # one operation that may be refused, inside try/catch.  The Spec: an index that is not an integer of the operation's range
+            # (insert 0..len, remove 0..len-1, []/[]= -len..len-1) is refused, "rejected" is printed and NOTHING else happens.
+            k, ix = st[1], st[3]
+            tv, ts, to = self.ev(st[2])
+            if k in ("mremove", "mget"):
+                # a map asked for a key it may not have: `m.remove(k)` / `m[k]` raise KeyError and change nothing
+                kv, ks, ko = self.ev(ix)
+                if kind(tv) != "map" or kind(kv) == "nil":
+                    raise Invalid("try map")
+                ok = tv.find(kv) is not None
+                if k == "mremove":
+                    if ok:
+                        tv.entries = [e for e in tv.entries if not same(e[0], kv)]
+                    src, body = "%s.remove(%s);" % (ts, ks), to + ["bind"] + ko + ["call mremove 1", "drop"]
+                else:
+                    src, body = "%s[%s];" % (ts, ks), to + ko + ["call mget 1", "drop"]
+                self.out.append("accepted" if ok else "rejected")
+                self.nobs += 1
+                self.trylog.append((k, "key", ok, False))
+                self.emit('try { %s print("accepted"); } catch e: Error { print("rejected"); }' % src,
+                          ["tryb"] + body + SAY_ACC + ["trye %d" % len(CATCH_OPS)] + CATCH_OPS)
+                return
+            if kind(tv) != "list" or k not in ("insert", "remove", "set", "get"):
+                raise Invalid("try")
+            ixs, ixop, ixv = ix_render(ix)
+            if k in ("insert", "set"):
+                v, vs, vo = self.ev(st[4])
+            n = len(tv.items)
+            whole = isinstance(ixv, int)
+            full = n == tv.cap
+            if k == "insert":
+                ok = whole and 0 <= ixv <= n
+                if ok:
+                    tv.items.insert(ixv, v)
+                    tv.added()
+                src, body = "%s.insert(%s, %s);" % (ts, ixs, vs), to + ["bind", ixop] + vo + ["call linsert 2", "drop"]
+            elif k == "remove":
+                ok = whole and 0 <= ixv < n
+                if ok:
+                    del tv.items[ixv]
+                src, body = "%s.remove(%s);" % (ts, ixs), to + ["bind", ixop, "call lremove 1", "drop"]
+            elif k == "set":
+                ok = whole and -n <= ixv < n
+                if ok:
+                    tv.items[ixv] = v
+                src, body = "%s[%s] = %s;" % (ts, ixs, vs), to + vo + [ixop, "call lset 2", "drop"]
+            else:
+                ok = whole and -n <= ixv < n
+                src, body = "%s[%s];" % (ts, ixs), to + [ixop, "call lget 1", "drop"]
+            self.out.append("accepted" if ok else "rejected")
+            self.nobs += 1
+            self.trylog.append((k, ix[0], ok, full))
+            self.emit('try { %s print("accepted"); } catch e: Error { print("rejected"); }' % src,
+                      ["tryb"] + body + SAY_ACC + ["trye %d" % len(CATCH_OPS)] + CATCH_OPS)
         elif t == "launch":
             if self.launched:
                 raise Invalid("second launch")
@@ -381,6 +476,7 @@ class Spec:
                 raise Invalid("no fiber list")
             v, s, o = self.ev(st[1])
             self.x.items.append(v)
+            self.x.added()
             self.emit("req <- 2; req <- %s; <- resp;" % s,
                       ["const 2", "fn", "send 0", "drop"] + self._b_cmd() + ["switch 0"] + o + ["fn", "send 0", "drop"] +
                       ["switch 1", "getl %d" % FRQ, "recv 0", "setl %d" % FV, "drop",
@@ -396,11 +492,13 @@ class Spec:
         return PRELUDE % {"scrub": SCRUB_SRC if self.scrub else ""} + body + tail + "}\nmain();\n"
 
 
-def render(stmts, scrub=True):
+def render(stmts, scrub=True, trylog=None):
     """(source, micro-ops line, python-spec outputs) or raises Invalid."""
     sp = Spec(scrub)
     for st in stmts:
         sp.do(st)
+    if trylog is not None:
+        trylog.extend(sp.trylog)
     return sp.program(), ";".join(sp.ops), sp.out
 
 
@@ -435,7 +533,75 @@ def paths(sp, depth=2):
     return out
 
 
-MULTI_P = [0.12]      # probability that a push is a variadic one crossing the capacity twice (the search raises it)
+MULTI_P = [0.12]      # extra share of two-argument pushes (the search raises it)
+TRY_P = [0.16]        # share of the mutating statements that are operations inside try/catch, most of them refused
+
+
+def gen_try(rng, sp, add, objs, value_expr, scalar):
+    """One possibly-refused operation inside try/catch, aimed at a list with no spare capacity, then observations
+    through the aliases of that list (refused or not, the identity of the list must be what it was)."""
+    maps = objs(("map",))
+    if maps and rng.random() < 0.12:
+        # a map asked to remove / read a key: present (alias of a key object or a number) or absent
+        e, m = rng.choice(maps)
+        keys = [kk for kk, _ in m.entries]
+        if keys and rng.random() < 0.5:
+            kk = rng.choice(keys)
+            ke = ("num", kk) if isinstance(kk, int) else next((x for x, w in paths(sp) if w is kk), None)
+        else:
+            o = objs()
+            ke = rng.choice(o)[0] if o and rng.random() < 0.6 else ("num", rng.randrange(1, 12))
+        if ke is not None and add(("try", rng.choice(["mremove", "mremove", "mget"]), e, ke)):
+            add(("len", e))
+            for kk in keys[:2]:
+                ka = ("num", kk) if isinstance(kk, int) else next((x for x, w in paths(sp) if w is kk), None)
+                if ka is not None:
+                    add(("has", e, ka))
+        return
+    lists = objs(("list",))
+    if not lists:
+        return
+    fulls = [x for x in lists if len(x[1].items) == x[1].cap]
+    if fulls and rng.random() < 0.7:
+        e, v = rng.choice(fulls)
+    else:
+        e, v = rng.choice(lists)
+        if rng.random() < 0.6 and v.cap - len(v.items) <= 4:
+            while len(v.items) < v.cap:             # fill it up to the capacity boundary first
+                if not add(("push", e, [scalar()])):
+                    break
+    n = len(v.items)
+    k = rng.choice(["insert", "insert", "insert", "remove", "remove", "set", "get"])
+    r = rng.random()
+    if r < 0.42:        # beyond the end: the first refused index, or further out
+        ix = ("num", (n + 1 if k == "insert" else n) + rng.choice([0, 0, 0, 1, 5]))
+    elif r < 0.56:      # negative: normalised by [] / []= when within -len..-1, refused otherwise and by insert/remove always
+        ix = ("neg", max(1, rng.choice([1, 1, n, n + 1, n + 2])))
+    elif r < 0.68:
+        ix = ("frac", rng.randrange(0, n + 2))
+    elif r < 0.76:
+        ix = ("nil",)
+    else:               # an index of the operation's range: accepted (an accepted insert on a full list relocates inside the try)
+        ix = ("num", rng.randrange(n + 1 if k == "insert" else max(n, 1)))
+    st = ("try", k, e, ix) + ((value_expr(),) if k in ("insert", "set") else ())
+    if not add(st):
+        return
+    # the battery: ==, len, has/index, map lookups through aliases of the target, wherever they are stored
+    al = [x for x, w in paths(sp) if w is v]
+    if not al:
+        return
+    for _ in range(min(3, len(al) - 1)):
+        a, b = rng.sample(al, 2)
+        add(("eq", a, b))
+    add(("len", rng.choice(al)))
+    budget = 2
+    for x, w in paths(sp):
+        if budget and kind(w) in ("list", "tuple") and any(y is v for y in w.items) and rng.random() < 0.5:
+            add((rng.choice(["has", "index"]), x, rng.choice(al)))
+            budget -= 1
+        elif budget and kind(w) == "map" and w.find(v) is not None and rng.random() < 0.7:
+            add(("has", x, rng.choice(al)))
+            budget -= 1
 
 
 def gen_history(rng, nstmts, fibers=True):
@@ -547,18 +713,23 @@ def gen_history(rng, nstmts, fibers=True):
             if not t:
                 continue
             e, v = t
+            if rng.random() < TRY_P[0]:
+                gen_try(rng, sp, add, objs, value_expr, scalar)
+                continue
             w = rng.random()
             n = len(v.items)
             if w < 0.62:
                 if fibers and sp.launched and sp.x is v and rng.random() < 0.5:
                     add(("fpush", value_expr()))
                 else:
-                    # now and then one variadic push that crosses the capacity more than once (4 -> 8 -> 16 ...)
-                    npush = rng.randint(9, 14) if rng.random() < MULTI_P[0] else rng.choice([1, 1, 1, 2])
+                    # `MULTI_P`: share of two-argument pushes (the search raises it); longer ones are outside what `Spec.do` renders
+                    # (until round 4 this branch asked for 9-14 arguments, which `Spec.do` refused: it never produced anything);
+                    # now and then a push of nothing (changes nothing, also on a full list)
+                    npush = 2 if rng.random() < MULTI_P[0] else rng.choice([1, 1, 1, 2]) if rng.random() < 0.96 else 0
                     add(("push", e, [value_expr() for _ in range(npush)]))
             elif w < 0.74:
                 add(("insert", e, rng.randrange(n + 1), value_expr()))
-            elif w < 0.82 and n:
+            elif w < 0.82 and (n or rng.random() < 0.25):      # now and then a pop of an empty list (answers nil, changes nothing)
                 add(("pop", e))
             elif w < 0.89 and n:
                 add(("remove", e, rng.randrange(n)))
@@ -646,7 +817,7 @@ def add_observation(rng, sp, add, pick_obj, alias_of):
 
 
 def parse_model(line):
-    """`MODEL a,b|SPEC a,b|grows=.. scans=.. stale=.. halted=.. e10=1,0` -> dict"""
+    """`MODEL a,b|SPEC a,b|grows=.. scans=.. stale=.. halted=.. raises=.. e10=1,0` -> dict"""
     if not line.startswith("MODEL "):
         return None
     p = line.split("|")
@@ -658,7 +829,8 @@ def parse_model(line):
         k, _, v = kv.partition("=")
         info[k] = v
     return {"model": lst(p[0][6:]), "spec": lst(p[1][5:]), "grows": int(info.get("grows", 0)), "scans": int(info.get("scans", 0)),
-            "stale": int(info.get("stale", 0)), "halted": info.get("halted") == "1", "e10": lst(info.get("e10", ""))}
+            "stale": int(info.get("stale", 0)), "halted": info.get("halted") == "1", "raises": int(info.get("raises", 0)),
+            "e10": lst(info.get("e10", ""))}
 
 
 def run_cases(cases, workdir, tag, gc=None):
@@ -667,11 +839,12 @@ def run_cases(cases, workdir, tag, gc=None):
     os.makedirs(workdir, exist_ok=True)
     rendered = []
     for i, (stmts, scrub) in enumerate(cases):
-        src, ops, pyspec = render(stmts, scrub)
+        tl = []
+        src, ops, pyspec = render(stmts, scrub, tl)
         path = os.path.join(workdir, "%s_%d.lay" % (tag, i))
         with open(path, "w") as f:
             f.write(src)
-        rendered.append((path, src, ops, pyspec))
+        rendered.append((path, src, ops, pyspec, tl))
     rc, mo, err = common.run_lines([DRV], [r[2] for r in rendered], timeout=1200)
     impl = common.run_batch([("--gc %s --full 1 %s" % (gc, r[0])) if gc else r[0] for r in rendered])
     for r in rendered:          # the sources are kept in the results; no need to leave 10^5 files behind
@@ -680,10 +853,10 @@ def run_cases(cases, workdir, tag, gc=None):
         except OSError:
             pass
     res = []
-    for i, (path, src, ops, pyspec) in enumerate(rendered):
+    for i, (path, src, ops, pyspec, tl) in enumerate(rendered):
         m = parse_model(mo[i]) if i < len(mo) else None
         im = impl[i] or {"status": "MISSING", "stdout": "", "stderr": ""}
-        res.append({"stmts": cases[i][0], "scrub": cases[i][1], "source": src, "ops": ops, "pyspec": pyspec,
+        res.append({"stmts": cases[i][0], "scrub": cases[i][1], "source": src, "ops": ops, "pyspec": pyspec, "trylog": tl,
                     "driver": mo[i] if i < len(mo) else "<missing>", "m": m,
                     "status": im.get("status"), "impl": [l for l in im.get("stdout", "").split("\n") if l != ""],
                     "stderr": im.get("stderr", "")[-400:]})
@@ -713,12 +886,14 @@ def judge(r, exact_outside=True):
             continue
         if mi == spec[i]:
             if ii != spec[i]:
+                r["fail_obs"] = i
                 return "spec", "observation %d: Spec and Model say %s, implementation printed %s" % (i, spec[i], ii), d7
         else:
             d7 += 1
             if ii != mi:
+                r["fail_obs"] = i
                 return "tie", "observation %d (outside E10): Model predicts %s (Spec %s), implementation printed %s" % (i, mi, spec[i], ii), d7
-            if mi == "KeyError" or mi == "IndexError":
+            if mi in ("KeyError", "IndexError", "TypeError"):
                 break
     if r["status"] != "Ok:0" and not m["halted"]:
         return "spec", "program ended with %s %s" % (r["status"], r["stderr"][-200:]), d7
@@ -739,7 +914,7 @@ def shrink(stmts, scrub, fails):
             try:
                 render(cand, scrub)
                 ok = fails(cand)
-            except Invalid:
+            except (Invalid, AttributeError, TypeError, IndexError, KeyError):     # a candidate that is no longer well typed
                 ok = False
             if ok:
                 cur = cand
@@ -794,12 +969,14 @@ def stream(ctx, label, n, nstmts, scrub, fibers=True, exact_outside=True, seed_s
     res = run_cases(cases, workdir(ctx.seed, label), label, gc)
     st = {"histories": len(res), "observations": 0, "histories_with_growth": 0, "grows": 0, "scans": 0,
           "histories_leaving_E10": 0, "observations_inside_E10": 0, "d7_instances": 0, "histories_with_d7": 0,
-          "stmts": 0, "with_fiber": 0, "ended_stale": 0, "model_impl_mismatch_outside_E10_not_judged": 0}
+          "stmts": 0, "with_fiber": 0, "ended_stale": 0, "model_impl_mismatch_outside_E10_not_judged": 0,
+          "try_statements": 0, "refused_operations": 0, "refused_on_full_list": 0, "histories_with_refusal_on_full_list": 0,
+          "accepted_in_try": 0, "accepted_insert_in_try_on_full_list": 0, "errors_raised_in_model": 0}
     kinds = {}
     first = None
     for r in res:
         v, detail, d7 = judge(r, exact_outside)
-        m = r["m"] or {"model": [], "spec": [], "grows": 0, "scans": 0, "e10": [], "stale": 0}
+        m = r["m"] or {"model": [], "spec": [], "grows": 0, "scans": 0, "e10": [], "stale": 0, "raises": 0}
         st["observations"] += len(m["spec"])
         st["grows"] += m["grows"]
         st["scans"] += m["scans"]
@@ -812,6 +989,17 @@ def stream(ctx, label, n, nstmts, scrub, fibers=True, exact_outside=True, seed_s
         st["with_fiber"] += any(s[0] == "launch" for s in r["stmts"])
         st["ended_stale"] += m["stale"] > 0
         st["model_impl_mismatch_outside_E10_not_judged"] += r.get("inexact_outside", 0)
+        tl = r.get("trylog", [])
+        st["try_statements"] += len(tl)
+        st["refused_operations"] += sum(1 for t in tl if not t[2])
+        st["refused_on_full_list"] += sum(1 for t in tl if not t[2] and t[3])
+        st["histories_with_refusal_on_full_list"] += any(not t[2] and t[3] for t in tl)
+        st["accepted_in_try"] += sum(1 for t in tl if t[2])
+        st["accepted_insert_in_try_on_full_list"] += sum(1 for t in tl if t[2] and t[3] and t[0] == "insert")
+        st["errors_raised_in_model"] += m.get("raises", 0)
+        for t in tl:
+            key = "try_%s_%s_%s%s" % (t[0], t[1], "accepted" if t[2] else "refused", "_full" if t[3] else "")
+            kinds[key] = kinds.get(key, 0) + 1
         for s in r["stmts"]:
             kinds[s[0]] = kinds.get(s[0], 0) + 1
             if s[0] == "set":       # where values (mostly aliases) are stored
@@ -838,22 +1026,96 @@ def stream(ctx, label, n, nstmts, scrub, fibers=True, exact_outside=True, seed_s
     return first, st
 
 
-def search_spec(ctx, budget):
+OBSERVING = ("eq", "has", "index", "mget", "len", "show")      # statements that print and change nothing in the Spec
+PRINTING = OBSERVING + ("try",)
+
+
+def widen(stmts, fail_obs, limit=160):
+    """Histories derived from one on which implementation and Model disagree where the Model itself leaves the Spec (a tie failure
+    in D7 territory): the state-changing statements up to the disagreeing observation, followed by ONE observation — every pair of
+    aliases of every object compared, every container / map asked for every alias.  Where the implementation has drifted from the
+    Model, one of these usually is an observation on which Model and Spec agree and the implementation does not."""
+    upto, seen = len(stmts), 0
+    for i, st in enumerate(stmts):
+        if st[0] in PRINTING:
+            if seen == fail_obs:
+                upto = i + 1
+                break
+            seen += 1
+    base = [st for st in stmts[:upto] if st[0] not in OBSERVING]
+    sp = Spec(False)
+    try:
+        for st in base:
+            sp.do(st)
+    except Invalid:
+        return []
+    ps = paths(sp)
+    vals = []
+    for e, v in ps:
+        if kind(v) not in ("num", "nil") and not any(v is w for w in vals):
+            vals.append(v)
+    vals.sort(key=lambda v: kind(v) != "list")
+    out = []
+    for v in vals:
+        al = [e for e, w in ps if w is v][:7]
+        for i in range(len(al)):
+            for j in range(i + 1, len(al)):
+                out.append(base + [("eq", al[i], al[j])])
+        for e, w in ps:
+            if kind(w) in ("list", "tuple") and any(x is v for x in w.items):
+                out += [base + [(k, e, a)] for a in al[:3] for k in ("has", "index")]
+            elif kind(w) == "map" and w.find(v) is not None:
+                out += [base + [("has", e, a)] for a in al[:4]]
+    ok = []
+    for c in out[:limit * 2]:
+        try:
+            render(c, True)
+            ok.append(c)
+        except Invalid:
+            pass
+    return ok[:limit]
+
+
+def load_corpus():
+    corpus = os.path.join(common.VERIF, "corpus", PROP)
+    pre = []
+    if os.path.isdir(corpus) and not os.environ.get("C10_NO_CORPUS"):     # C10_NO_CORPUS=1: show that the generated streams alone catch a change
+        for f in sorted(os.listdir(corpus)):
+            j = json.load(open(os.path.join(corpus, f)))
+            pre.append((from_json(j["stmts"]), j.get("scrub", True)))
+    return pre
+
+
+def search_spec(ctx, budget, ties=(), first=()):
     """Spec-judged search (the property itself): histories whose *Model* prediction is Spec-conformant
-    but the implementation is not."""
+    but the implementation is not.  First the corpus (`first`) and random histories; then, if those only produced disagreements between
+    implementation and Model outside E10 (tie failures), the neighbourhood of those (`widen`)."""
     rng = random.Random(ctx.seed * 7919 + 101)
-    cases = [(gen_history(rng, rng.randint(8, 26)), True) for _ in range(budget // 2)]
+    cases = list(first) + [(gen_history(rng, rng.randint(8, 26)), True) for _ in range(budget // 2)]
     MULTI_P[0] = 0.6
     try:
         cases += [(gen_history(rng, rng.randint(6, 16), fibers=False), True) for _ in range(budget - budget // 2)]
     finally:
         MULTI_P[0] = 0.12
     res = run_cases(cases, workdir(ctx.seed, "search"), "search")
-    ctx.stream_stat("search", histories=len(res))
+    ties = list(ties)
     for r in res:
         v, detail, _ = judge(r)
         if v == "spec":
+            ctx.stream_stat("search", histories=len(res))
             return r, detail
+        if v == "tie":
+            ties.append(r)
+    ties.sort(key=lambda r: len(r["stmts"]))
+    wide = []
+    for r in ties[:24]:
+        wide += [(c, True) for c in widen(r["stmts"], r.get("fail_obs", 10 ** 6))]
+    ctx.stream_stat("search", histories=len(res), tie_failures=len(ties), widened=len(wide))
+    if wide:
+        for r in run_cases(wide, workdir(ctx.seed, "search_widen"), "widen"):
+            v, detail, _ = judge(r)
+            if v == "spec":
+                return r, detail
     return None
 
 
@@ -878,14 +1140,16 @@ def run(ctx):
         ctx.violation("harness_build", {"kind": "harness-build-failed", "broken": "cargo build of /verif/harness against /repo",
                                         "output": out_c[-3000:]}, no_input=True)
         return
-    ctx.cov["rule"] = ("random well-typed mutation histories (8-30 statements: push/insert/pop/remove/clear/index and field assignment, "
-                       "map set/remove, ==, has, index, map get/has, len) with aliases in locals, module variables, instance fields, "
+    ctx.cov["rule"] = ("random well-typed mutation histories (8-30 statements: push (0-2 values)/insert/pop (also of an empty list)/remove/clear/"
+                       "index and field assignment, map set/remove, ==, has, index, map get/has, len; operations inside try/catch — insert, remove, "
+                       "[]=, [] with an index in range, one past the end, far out, negative, fractional or nil, 70% of them aimed at a list whose "
+                       "length equals its capacity — each followed by ==/len/has/index/map lookups through the aliases of the target) with aliases in locals, module variables, instance fields, "
                        "nested lists/tuples/maps (values and keys), captured variables/closures and a second fiber (launch argument, "
                        "channel); non-trivial = at least one list relocation and one observation; distinct by hash of the micro-op rendering")
     if not proved:
         what, detail = ctx.broken
         common.lake_build(["drv_listfwd"])      # the driver only needs the model, not the theorems
-        found = search_spec(ctx, ctx.n(16000, 80000))
+        found = search_spec(ctx, ctx.n(16000, 80000), first=load_corpus())
         if found:
             r, d = found
             p = report(ctx, r, "spec", d, "search")
@@ -900,12 +1164,7 @@ def run(ctx):
         replay_known(ctx)
         return
     # corpus first
-    corpus = os.path.join(common.VERIF, "corpus", PROP)
-    pre = []
-    if os.path.isdir(corpus):
-        for f in sorted(os.listdir(corpus)):
-            j = json.load(open(os.path.join(corpus, f)))
-            pre.append((from_json(j["stmts"]), j.get("scrub", True)))
+    pre = load_corpus()
     if pre:
         for r in run_cases(pre, workdir(ctx.seed, "corpus"), "corpus"):
             v, detail, _ = judge(r)
@@ -935,7 +1194,7 @@ def run(ctx):
                                            "what": detail, "source": r["source"], "ops": r["ops"]}, no_input=True)
             else:
                 ctx.cov["model_vs_impl_disagreements"] += 1
-                found = search_spec(ctx, ctx.n(16000, 80000))
+                found = search_spec(ctx, ctx.n(16000, 80000), ties=[r] if v == "tie" else [])
                 if found:
                     r2, d2 = found
                     p = report(ctx, r2, "spec", d2, "search")
@@ -957,6 +1216,9 @@ def run(ctx):
         "omits it and is compared exactly only where the Model predicts Spec-conformant results",
         "garbage collection does not move or reuse reachable objects (C05; one stream runs with a full collection at every second allocation); "
         "number keys, NaN and -0 are C11/D8, not exercised here",
+        "a raised error unwinds to the `try` of the same statement (Model: `M.raise`, stack top back at the handler's depth); what error construction "
+        "leaves in the dead slots above (error class, message, instance: none of them reachable by the history) is modelled as `undef`; errors are "
+        "raised on the main fiber only; which class of error is raised (IndexError / TypeError) is C11's matter and not compared",
         "lists are created by literals (capacity max(len, 4)); the growth rule is the repaired one, (cap * 2).max(needed) (ca8f885), which the model "
         "carries for every capacity incl. 0, but the history generator does not create capacity-0 lists (`[].iter().list()`): those are exercised by C11",
     ]
